@@ -65,10 +65,13 @@ VARIABLES lens, nc, shape,        \* scenario: flow length per data version, num
           pos, out,               \* values delivered in this run
           pulled, wpre, wmid,     \* pulls from src, values handled by pre, by mid in this run
           h                       \* ghost: commands so far (hidden by VIEW; exported)
-vars == <<n, nc, shape, ver, file, stored, intr, ph, rc, L, pos, out, pulled, wpre, wmid, h>>
-view == <<n, nc, shape, ver, file, stored, intr, ph, rc, L, pos, out, pulled, wpre, wmid>>
+vars == <<lens, nc, shape, ver, file, stored, intr, ph, rc, L, pos, out, pulled, wpre, wmid, h>>
+view == <<lens, nc, shape, ver, file, stored, intr, ph, rc, L, pos, out, pulled, wpre, wmid>>
 
-F(v) == [i \in 1..n |-> 100 * v + i]
+MaxVer == Len(lens)
+F(v) == [i \in 1..lens[v] |-> 100 * v + i]
+LensQuick == {<<0, 2>>, <<1, 1>>, <<2, 2>>}
+LensThorough == {<<0, 2, 1>>, <<1, 1, 1>>, <<2, 2, 2>>, <<3, 3, 3>>, <<2, 0, 3>>}
 Absent == [k |-> "A", c |-> <<>>]
 Refused == [k |-> "B", c |-> <<>>]
 Full(s) == [k |-> "F", c |-> s]
@@ -78,19 +81,19 @@ ShapesFor(m) == {Shape(a, b, c) : a \in BOOLEAN, b \in (IF m = 1 THEN {FALSE} EL
 Cmd(name, a, r, c) == [cmd |-> name, a |-> a, rc |-> r, c |-> c]
 Log(hh, c) == IF KeepHistory THEN Append(hh, c) ELSE hh
 
-InitWith(n0, nc0, shape0) ==
-  /\ n = n0 /\ nc = nc0 /\ shape = shape0 /\ ver = 1
+InitWith(lens0, nc0, shape0) ==
+  /\ lens = lens0 /\ nc = nc0 /\ shape = shape0 /\ ver = 1
   /\ file = [c \in 1..nc0 |-> Absent] /\ stored = [c \in 1..nc0 |-> 0]
   /\ intr = [c \in 1..nc0 |-> FALSE]
   /\ ph = "noobj" /\ rc = [c \in 1..nc0 |-> FALSE]
   /\ L = 0 /\ pos = 0 /\ out = <<>> /\ pulled = 0 /\ wpre = 0 /\ wmid = 0 /\ h = <<>>
-Init == \E n0 \in 0..MaxN, sc \in Scenarios : InitWith(n0, sc[1], sc[2])
+Init == \E l0 \in LenProfiles, sc \in Scenarios : InitWith(l0, sc[1], sc[2])
 ScenAll == {<<m, s>> : m \in {1, 2}, s \in ShapesFor(2)} \ {<<1, s>> : s \in {t \in ShapesFor(2) : t.mid}}
 \* quick: a cache first, last and next to the other one (no taps); every tap present
 ScenQuick == {<<1, Shape(FALSE, FALSE, FALSE)>>, <<1, Shape(TRUE, FALSE, TRUE)>>,
               <<2, Shape(FALSE, FALSE, FALSE)>>, <<2, Shape(TRUE, TRUE, TRUE)>>}
 
-Scenario == UNCHANGED <<n, nc, shape>>
+Scenario == UNCHANGED <<lens, nc, shape>>
 RunVars == <<L, pos, out, pulled, wpre, wmid>>
 
 (***************************************************************************)
@@ -180,8 +183,9 @@ Spec == Init /\ [][Next]_vars
 (* Properties.                                                             *)
 (***************************************************************************)
 IsPrefix(a, b) == Len(a) <= Len(b) /\ a = SubSeq(b, 1, Len(a))
-TypeOK == /\ n \in 0..MaxN /\ nc \in {1, 2} /\ ver \in 1..MaxVer /\ ph \in {"noobj", "idle", "run"}
-          /\ L \in 0..nc /\ pos \in 0..n /\ Len(out) = pos
+TypeOK == /\ (\A v \in 1..MaxVer : lens[v] \in 0..MaxN) /\ nc \in {1, 2} /\ ver \in 1..MaxVer
+          /\ ph \in {"noobj", "idle", "run"}
+          /\ L \in 0..nc /\ pos \in 0..MaxN /\ Len(out) = pos
           /\ \A c \in 1..nc : file[c].k \in {"A", "F", "B"} /\ stored[c] \in 0..MaxVer
 \* a loadable cache always holds a complete flow (never a proper prefix)
 NoTruncated == \A c \in 1..nc : file[c].k = "F" => \E v \in 1..ver : file[c].c = F(v)
@@ -210,5 +214,5 @@ InterruptKeepsLoaded == [][(ph = "run" /\ ph' = "idle") => \A c \in 1..nc : c <=
 (* history leading to it (each distinct state is expanded once, with the    *)
 (* history that reached it first; h is hidden by VIEW).                     *)
 (***************************************************************************)
-EmitEdge == PrintT(ToJson([n |-> n, nc |-> nc, shape |-> shape, h |-> h']))
+EmitEdge == PrintT(ToJson([lens |-> lens, nc |-> nc, shape |-> shape, h |-> h']))
 =============================================================================
